@@ -70,6 +70,19 @@ PathProps(d, ev) == IF d[1] \in {"wrk", "bcn"} /\ d[2] = "ch" THEN (IF Len(d) >=
 \* an import after which a registration reads records it did not hold before is one entity reading another one's storage
 ImportAliasProps(d) == IF d[1] \in {"wrk", "bcn"} /\ d[2] = "ch" /\ Len(d) >= 4 /\ d[4] \in {"recs", "iter"} THEN {"C18"} ELSE {}
 
+\* an import that changes who is entitled to what (whitelist, signer list, owners, grants) lets messages take effect for other parties
+ImportEntitlementProps(d) ==
+  IF d \in {<<"ent", "wl">>, <<"ent", "p">>, <<"grants">>} \/ (d[1] \in {"wrk", "bcn"} /\ d[2] = "ch" /\ Len(d) >= 4 /\ d[4] = "owner")
+  THEN {"C13"} ELSE {}
+
+(* well-formedness of an observed state: the specification's operators index registrations and orders by id, so a state *)
+(* whose ids are not consecutive from the starting id cannot be stepped from (it is reported, not crashed on)          *)
+WfReg(o, k) == /\ Len(o[k].ch) = o[k].next - o[k].start
+               /\ \A i \in DOMAIN o[k].ch : "owner" \in DOMAIN o[k].ch[i] /\ o[k].ch[i].id = o[k].start + i - 1
+WfEnt(o) == /\ Len(o.ent.po) = o.ent.next - o.ent.start
+            /\ \A i \in DOMAIN o.ent.po : "st" \in DOMAIN o.ent.po[i] /\ o.ent.po[i].id = o.ent.start + i - 1
+Wf(o) == WfReg(o, "wrk") /\ WfReg(o, "bcn") /\ WfEnt(o)
+
 (* L1: property monitors on one observed state *)
 StateMonitors(o) ==
   { <<"C02", "SumBalEqualsSupply">> : x \in { d \in Denoms : o.sumBal[d] # o.supply[d] } }
@@ -84,9 +97,11 @@ StateMonitors(o) ==
   \cup (IF ~EscrowBacked(o) THEN {<<"C10", "EscrowBacked">>} ELSE {})
   \cup (IF ~o.str.inv THEN {<<"C10", "ModuleInvariant">>} ELSE {})
   \cup (IF ~Sustained(o) THEN {<<"C11", "Sustained">>} ELSE {})
+
   \cup (IF ~RegistryOk(o, "wrk") THEN {<<"C08", "RegistryOkWrk">>} ELSE {})
   \cup (IF ~RegistryOk(o, "bcn") THEN {<<"C08", "RegistryOkBcn">>} ELSE {})
   \cup (IF ~StoredParamsValid(o) THEN {<<"C16", "StoredParamsValid">>} ELSE {})
+
   \cup (IF ~SpendableConsistent(o) THEN {<<"C05", "SpendableConsistent">>} ELSE {})
   \cup (IF "q" \in DOMAIN o
         THEN (IF ~SupplyOfOk(o) THEN {<<"C17", "SupplyOf">>} ELSE {})
@@ -101,6 +116,7 @@ HistMonitors(o, ax) ==
      (IF ~HistoryOk(oa, "wrk") THEN {<<"C07", "InStateEqualsNewestAcceptedWrk">>, <<"C08", "InStateEqualsNewestAcceptedWrk">>} ELSE {})
   \cup (IF ~HistoryOk(oa, "bcn") THEN {<<"C07", "InStateEqualsNewestAcceptedBcn">>, <<"C08", "InStateEqualsNewestAcceptedBcn">>} ELSE {})
   \cup (IF ~Conserved(oa) THEN {<<"C10", "PerStreamConservation">>} ELSE {})
+  \cup (IF ~NotStranded(oa) THEN {<<"C12", "StreamStranded">>} ELSE {})
 
 (* L1: property monitors on one observed step s --ev--> t *)
 StepMonitors(s, t, ev) ==
@@ -167,7 +183,7 @@ Judge(i) ==
              ELSE IF ev.a = "ExportImport" THEN (IF ImportSucceeds(pre) THEN Ok(ImportExport(pre)) ELSE Panic(pre))
              ELSE Step(pre, ev.args)
       evm == ev.args @@ [a |-> ev.a]
-  IN UNION { Tag(i, "L2", (IF ev.a = "Restart" THEN {"C01"} ELSE IF ev.a = "ExportImport" THEN {"C15"} \cup PathProps(d, ev) \cup ImportAliasProps(d) ELSE PathProps(d, ev)), d)
+  IN UNION { Tag(i, "L2", (IF ev.a = "Restart" THEN {"C01"} ELSE IF ev.a = "ExportImport" THEN {"C15"} \cup PathProps(d, ev) \cup ImportAliasProps(d) \cup ImportEntitlementProps(d) ELSE PathProps(d, ev)), d)
                : d \in (IF ev.a = "ExportImport" /\ ~ev.res.ok THEN {} ELSE StateDiff(exp.st, ev.post)) }
      \cup (IF ev.a = "ExportImport"
            THEN (IF ~ev.res.exportOk THEN {<<i, "L1", "C15", "ExportFailed">>} ELSE {})
@@ -226,7 +242,13 @@ Explain(i) ==
 
 \* a step in which a begin/end blocker or commit panicked leaves no meaningful state: only the halt itself is reported
 JudgeOrHalt(i) ==
-  IF Trace[i].post.halted
+  IF ~Wf(Trace[i - 1].post) \/ ~Wf(Trace[i].post)
+  THEN \* the ids of the observed state are inconsistent: only the state monitors speak (they report it), the step is not judged
+       LET o == Trace[i].post IN
+          (IF ~WfReg(o, "wrk") THEN {<<i, "L1", "C09", "WrkChainIdsNotSequential">>, <<i, "L1", "C08", "WrkChainIdsNotSequential">>} ELSE {})
+       \cup (IF ~WfReg(o, "bcn") THEN {<<i, "L1", "C09", "BeaconIdsNotSequential">>, <<i, "L1", "C08", "BeaconIdsNotSequential">>} ELSE {})
+       \cup (IF ~WfEnt(o) THEN {<<i, "L1", "C03", "PurchaseOrderIdsNotSequential">>} ELSE {})
+  ELSE IF Trace[i].post.halted
   THEN {<<i, "L1", "C14", IF EntDenomChanged(Trace[i - 1].post) THEN "HaltedAfterEnterpriseDenomChange" ELSE "Halted">>}
   ELSE Judge(i)
 
@@ -244,7 +266,8 @@ TraceNext ==
      THEN /\ aux' = AdoptAux(Trace[l].post)
           /\ snap' = [line |-> l, aux |-> aux']
           /\ bad' = bad \cup { <<l, "L1", m[1], m[2]>> : m \in StateMonitors(Trace[l].post) }
-     ELSE /\ aux' = IF Trace[l].a = "Restart" THEN snap.aux
+     ELSE /\ aux' = IF ~Wf(Trace[l - 1].post) \/ ~Wf(Trace[l].post) THEN aux
+                    ELSE IF Trace[l].a = "Restart" THEN snap.aux
                     \* an export that crossed the 20,000-record cap legitimately loses the older records: from then on
                     \* the re-imported chain is no longer compared with the original one record by record
                     ELSE IF Trace[l].a = "ExportImport" THEN [aux EXCEPT !.overcap = @ \/ ~WithinCap(Trace[l - 1].post)]
